@@ -424,7 +424,7 @@ supervise(const char* cases_path, const char* trace_path, int watchdog_ms)
         bool done = false, timed_out = false;
         for (;;) {
             struct pollfd p = { pfd[0], POLLIN, 0 };
-            int r = poll(&p, 1, inflight < 0 ? 10 * watchdog_ms : watchdog_ms);
+            int r = poll(&p, 1, inflight < 0 ? (10 * watchdog_ms > 60000 ? 10 * watchdog_ms : 60000) : watchdog_ms);
             if (r < 0 && errno == EINTR)
                 continue;
             if (r == 0) {
@@ -453,11 +453,8 @@ supervise(const char* cases_path, const char* trace_path, int watchdog_ms)
             ++slow;
             snprintf(b, sizeof(b), "{\"e\":\"Slow\",\"id\":%ld,\"ms\":%d,\"init\":%d}", inflight >= 0 ? cases[(size_t)inflight].id : -1L, watchdog_ms, inflight < 0 ? 1 : 0);
             emit(b);
-            if (inflight < 0) { // the device manager itself does not come up in time: give up, the check reports it
-                snprintf(b, sizeof(b), "{\"e\":\"Crash\",\"id\":-1,\"signal\":0,\"exit\":124,\"phase\":\"init\"}");
-                emit(b);
+            if (inflight < 0) // the device manager does not come up (or go down) in time: give up, the check reports it as broken
                 break;
-            }
             next = (size_t)inflight + 1;
         } else if (WIFSIGNALED(status) || (WIFEXITED(status) && WEXITSTATUS(status) != 0) || !done) {
             ++crashes;
